@@ -513,4 +513,5 @@ func c17(g *Gen) {
 		g.Emit("C17.ops", list(num(s.nvars), list(opsS...)), list(outS...), cls...)
 	}
 	os.RemoveAll(filepath.Join(src, "ex.test/regen"))
+	c17flatten(g)
 }
